@@ -163,6 +163,7 @@ ADAPTORS = [
     (r'^Header_write$', _scenario('header_write_label')),
     (r'^c3d_frame_guards$', _keyed('label-order', 'frame_point_order')),
     (r'^B_readParam_', _scenario('param_matrix_eof', ['-O1'])),
+    (r'^B_Data_read$', _keyed('truncated-data', 'data_counts_eof', ['-O1'])),
     (r'^B_Parameter_read$', _keyed('work-bounded', 'param_zero_last_dim', ['-O1'])),
     (r'^B_Parameter_read$', _scenario('param_char_scalar', ['-fsanitize=address'])),
     (r'^c3d_updateHeader_rates$', _scenario('update_header_rate_ub', ['-fsanitize=float-cast-overflow', '-fno-sanitize-recover=all'])),
